@@ -83,16 +83,14 @@ theorem stepInstr_hext {fn : Fn} {upv : List Val} {i : Instr} {pc : Nat} {stk : 
     rw [hd]
     split at hs
     · rename_i id heq
-      simp only [heq]
       split at hs
       · rename_i t fs ns hdat
-        simp only [hdat]
         split at hs
         · simp at hs
         · rename_i hlt
           simp only [hlt, if_false]
           simp only [LocalOut.next.injEq, heap_mk_eq] at hs ⊢
-          exact ⟨hs.1, hs.2.1, rfl, by rw [hs.2.2.2, hd]⟩
+          exact ⟨hs.1, hs.2.1, trivial, by rw [hs.2.2.2, hd]⟩
       · simp at hs
     · simp at hs
   case makeClosure fi n =>
@@ -116,7 +114,6 @@ theorem stepInstr_hext {fn : Fn} {upv : List Val} {i : Instr} {pc : Nat} {stk : 
       simp only [hlt, if_false]
       split at hs
       · rename_i id heq
-        simp only [heq]
         split at hs
         · rename_i f ups hcl
           simp only [hx.clos hcl]
@@ -125,7 +122,7 @@ theorem stepInstr_hext {fn : Fn} {upv : List Val} {i : Instr} {pc : Nat} {stk : 
           · rename_i hlt2
             simp only [hlt2, if_false]
             simp only [LocalOut.next.injEq, heap_mk_eq] at hs ⊢
-            refine ⟨hs.1, hs.2.1, ?_, rfl⟩
+            refine ⟨hs.1, hs.2.1, ?_, trivial⟩
             obtain ⟨t, ht⟩ := hx.2
             have hid : id < h.clos.length := by
               rcases Nat.lt_or_ge id h.clos.length with h' | h'
@@ -134,5 +131,81 @@ theorem stepInstr_hext {fn : Fn} {upv : List Val} {i : Instr} {pc : Nat} {stk : 
             rw [← ht, setAt_append_left _ _ _ _ hid, hs.2.2.1]
         · simp at hs
       · simp at hs
+
+theorem stepLocal_hext {fn : Fn} {upv : List Val} {pc : Nat} {stk : List Val}
+    {h h' : Heap} {pc' : Nat} {stk' : List Val} (hx : HExt h h')
+    (hs : stepLocal fn upv pc stk h = .next pc' stk' h) :
+    stepLocal fn upv pc stk h' = .next pc' stk' h' := by
+  unfold stepLocal at hs ⊢
+  split at hs
+  · exact stepInstr_hext hx hs
+  · simp at hs
+
+/-- the arithmetic failure of a turn does not depend on the heap -/
+theorem stepInstr_arith {fn : Fn} {upv : List Val} {i : Instr} {pc : Nat} {stk : List Val}
+    {h h' : Heap} (hs : stepInstr fn upv i pc stk h = .err .arith) :
+    stepInstr fn upv i pc stk h' = .err .arith := by
+  cases i
+  all_goals (simp only [stepInstr] at hs ⊢)
+  all_goals (try (repeat' split at hs) <;> simp_all <;> done)
+
+theorem stepLocal_arith {fn : Fn} {upv : List Val} {pc : Nat} {stk : List Val}
+    {h h' : Heap} (hs : stepLocal fn upv pc stk h = .err .arith) :
+    stepLocal fn upv pc stk h' = .err .arith := by
+  unfold stepLocal at hs ⊢
+  split at hs
+  · exact stepInstr_arith hs
+  · simp at hs
+
+mutual
+theorem Exec.hext {fn : Fn} {upv : List Val} {h h' : Heap} {pc : Nat} {stk : List Val} {pc' : Nat}
+    {stk' : List Val} : Exec fn upv h pc stk pc' stk' → HExt h h' → Exec fn upv h' pc stk pc' stk'
+  | .refl _ _, _ => .refl _ _
+  | .cons hs a, hx => .cons (stepLocal_hext hx hs) (a.hext hx)
+  | .call hi hg hn hr a, hx => .call hi (hx.clos hg) hn (hr.hext hx) (a.hext hx)
+theorem Returns.hext {g : Fn} {gupv : List Val} {h h' : Heap} {args : List Val} {v : Val} :
+    Returns g gupv h args v → HExt h h' → Returns g gupv h' args v
+  | .ret a hret, hx => .ret (a.hext hx) hret
+  | .tail a hi hg hn hr, hx => .tail (a.hext hx) hi (hx.clos hg) hn (hr.hext hx)
+end
+
+theorem ExecErr.hext' {fn : Fn} {upv : List Val} {h h' : Heap} {pc : Nat} {stk : List Val} {e : Err} :
+    ExecErr fn upv h pc stk e → e = .arith → HExt h h' → ExecErr fn upv h' pc stk e
+  | .here a he, ea, hx => .here (a.hext hx) (by subst ea; exact stepLocal_arith he)
+  | .incall a hi hg hn he, ea, hx => .incall (a.hext hx) hi (hx.clos hg) hn (he.hext' ea hx)
+
+theorem ExecErr.hext {fn : Fn} {upv : List Val} {h h' : Heap} {pc : Nat} {stk : List Val}
+    (a : ExecErr fn upv h pc stk .arith) (hx : HExt h h') : ExecErr fn upv h' pc stk .arith :=
+  a.hext' rfl hx
+
+theorem CloRel.hext {K : Nat} {h h' : Heap} {n : Nat} {v v' : Val} (a : CloRel K h n v v')
+    (hx : HExt h h') : CloRel K h' n v v' := by
+  obtain ⟨cs, idx, env, id, g, gupv, nm, params, body, h1, h2, h3, h4, h5, h6, h7, h8⟩ := a
+  exact ⟨cs, idx, env, id, g, gupv, nm, params, body, h1, h2, hx.clos h3, h4, h5, h6, h7,
+    fun fuel vs hf hv => ⟨fun r hr => ((h8 fuel vs hf hv).1 r hr).hext hx,
+      fun he => ((h8 fuel vs hf hv).2 he).hext hx⟩⟩
+
+theorem RV.hext {K : Nat} {h h' : Heap} {Φ : List (Sym × Nat)} {x : Sym} {v v' : Val}
+    (a : RV K h Φ x v v') (hx : HExt h h') : RV K h' Φ x v v' := by
+  unfold RV at a ⊢
+  split
+  · rename_i e; simpa [e] using a
+  · rename_i n e; rw [e] at a; exact CloRel.hext a hx
+
+theorem RV.mono {K K' : Nat} {h : Heap} {Φ : List (Sym × Nat)} {x : Sym} {v v' : Val}
+    (a : RV K h Φ x v v') (hle : K' ≤ K) : RV K' h Φ x v v' := by
+  unfold RV at a ⊢
+  split
+  · rename_i e; simpa [e] using a
+  · rename_i n e; rw [e] at a; exact CloRel.mono hle a
+
+theorem Agree.hext {K : Nat} {h h' : Heap} {Φ fv upv scopes ρ stk}
+    (a : Agree K h Φ fv upv scopes ρ stk) (hx : HExt h h') : Agree K h' Φ fv upv scopes ρ stk := by
+  intro x v hv
+  rcases a x v hv with ⟨i, v', hi, hs, hr⟩ | ⟨hn, hr⟩
+  · exact Or.inl ⟨i, v', hi, hs, hr.hext hx⟩
+  · refine Or.inr ⟨hn, fun k hk => ?_⟩
+    obtain ⟨v', hu, hr'⟩ := hr k hk
+    exact ⟨v', hu, hr'.hext hx⟩
 
 end GluonModel.Proofs.Compile
